@@ -126,9 +126,11 @@ class PyModel:
                 return BoundMethod(obj, attr)
             v = ex.known(ex.get_field(ref, attr))
             ty = self.engine.shapes.field_ty(cls, attr)
-            if ty is None and cls in self.src.classes:
-                # not a declared field of the class: AttributeError unless set dynamically
+            declared = cls not in self.src.classes or any((c, attr) in self.engine.shapes_fields() for c in self.src.mro(cls))
+            if not declared:
+                # not a declared field of the (static) class: a subclass may have it, else AttributeError
                 ex.event('undeclared_field_read', cls, attr)
+                ex.may_raise(['AttributeError'], 'no attribute %s' % attr)
             self.engine.shapes.assume(ex, v, ty)
             ex.event('field_read', ref, attr, v)
             return v
@@ -657,6 +659,11 @@ class PyModel:
         a = ex.to_val(a)
         b = ex.to_val(b)
         if opname in ('Eq', 'NotEq'):
+            if ex.branch(z3.Or(z3.And(L.is_Obj(a), L.is_scalar(b)), z3.And(L.is_Obj(b), L.is_scalar(a))), 'eq-obj-scalar'):
+                pkg = [x for x in (a, b) if ex.class_of(x) in self.src.classes]
+                if pkg:
+                    # package (data)classes compare equal only to instances of the same class
+                    return L.BoolV(z3.BoolVal(opname != 'Eq'))
             if ex.branch(z3.Or(L.is_Opaque(a), L.is_Opaque(b), L.is_Obj(a), L.is_Obj(b)), 'eq-opaque'):
                 cls_a = ex.class_of(a) if True else None
                 # dataclass / object equality: no effects for package classes; host objects unknown
